@@ -32,6 +32,10 @@ def gen(rng, tier):
         yield Case(sx.dump(['fmt', t, r, T.ftab_sx(ft1), T.ptab_sx(pt1)]), nt, t)
     for v in list(range(0, 1101, 1 if tier == 'thorough' else 7)) + [999, 1000, 1001, 65535, 65536, 4294967295]:
         yield Case(sx.dump(['score', 'try', v]), True, 'score')
+    for fs in [[], [b'n'], [b'n', b'd'], [b'', b''], [b'a b', 'é'.encode(), b''], [b'x'] * 5]:
+        yield Case(sx.dump(['misc', 'optf', [sx.hexs(f) for f in fs]]), len(fs) >= 2, 'misc')
+    for s in [b'+', b'-', b'', b'.', b'++', b'+-', b' +', b'plus', '＋'.encode()]:
+        yield Case(sx.dump(['misc', 'strand', sx.hexs(s)]), True, 'misc')
     for s in [b'0', b'1000', b'1001', b'999', b'4294967295', b'4294967296', b'+7', b'007', b'', b'.', b'-1', b'1e3', b' 1', b'65536', b'70000']:
         yield Case(sx.dump(['score', 'str', sx.hexs(s)]), True, 'score')
 
